@@ -161,7 +161,8 @@ func hash2B(pw, salt, udata []byte, r int) []byte {
 			t := sha512.Sum512(e)
 			k = t[:]
 		}
-		if round >= 63 && int(e[len(e)-1]) <= round-32 {
+		// the round counter of the standard has already been advanced when the test is made
+		if round >= 63 && int(e[len(e)-1]) <= round+1-32 {
 			break
 		}
 	}
